@@ -5,6 +5,8 @@ import (
 	"errors"
 	"fmt"
 	"go/format"
+	"go/token"
+	"math"
 	"net"
 	"strconv"
 
@@ -26,6 +28,89 @@ type Generator struct {
 	// Map of external attributes to import path where the attribute is
 	// defined.
 	ExternalAttributes map[string]string
+}
+
+// encryptSupported reports whether the templates implement the attribute's
+// encrypt flag: User-Password style (encrypt=1) exists for string and octets
+// only, Tunnel-Password style (encrypt=2) for string, octets, ipaddr, ipv6addr
+// and untagged short, integer and integer64 attributes.
+func encryptSupported(attr *dictionary.Attribute) bool {
+	if !attr.FlagEncrypt.Valid {
+		return true
+	}
+	switch attr.Type {
+	case dictionary.AttributeString, dictionary.AttributeOctets:
+		return true
+	case dictionary.AttributeIPAddr, dictionary.AttributeIPv6Addr:
+		return attr.FlagEncrypt.Int == dictionary.EncryptTunnelPassword
+	case dictionary.AttributeShort, dictionary.AttributeInteger, dictionary.AttributeInteger64:
+		return attr.FlagEncrypt.Int == dictionary.EncryptTunnelPassword && !attr.HasTag()
+	}
+	return false
+}
+
+// attributeIdentifier returns the exported Go identifier generated helpers of
+// the attribute are named after.
+func attributeIdentifier(attr *dictionary.Attribute) (string, error) {
+	ident := identifier(attr.Name)
+	if !token.IsIdentifier(ident) || !token.IsExported(ident) {
+		return "", errors.New("dictionarygen: cannot derive an exported identifier from attribute name " + strconv.Quote(attr.Name))
+	}
+	return ident, nil
+}
+
+// attributeValues returns the values of attr in allValues (which must be
+// sorted by number). Of several values with the same number the last one wins.
+func attributeValues(attr *dictionary.Attribute, allValues []*dictionary.Value) []*dictionary.Value {
+	var values []*dictionary.Value
+	for _, value := range allValues {
+		if value.Attribute == attr.Name {
+			if len(values) > 0 && values[len(values)-1].Number == value.Number {
+				values[len(values)-1] = value
+			} else {
+				values = append(values, value)
+			}
+		}
+	}
+	return values
+}
+
+// checkValues verifies that the named constants generated for values are
+// distinct identifiers and, when bitsize is non-zero, that they fit the
+// attribute's value type.
+func checkValues(attrName string, values []*dictionary.Value, bitsize int) error {
+	idents := make(map[string]*dictionary.Value, len(values))
+	for _, value := range values {
+		if bitsize > 0 && bitsize < 64 && value.Number > 1<<uint(bitsize)-1 {
+			return fmt.Errorf("dictionarygen: value %s (%d) of attribute %s does not fit in %d bits", value.Name, value.Number, attrName, bitsize)
+		}
+		ident := identifier(value.Name)
+		if existing, ok := idents[ident]; ok {
+			return fmt.Errorf("dictionarygen: duplicate identifier between values %s and %s of attribute %s", existing.Name, value.Name, attrName)
+		}
+		idents[ident] = value
+	}
+	return nil
+}
+
+func checkAttributeValues(attrs []*dictionary.Attribute, allValues []*dictionary.Value) error {
+	for _, attr := range attrs {
+		var bitsize int
+		switch attr.Type {
+		case dictionary.AttributeShort:
+			bitsize = 16
+		case dictionary.AttributeInteger:
+			bitsize = 32
+		case dictionary.AttributeInteger64:
+			bitsize = 64
+		default:
+			continue
+		}
+		if err := checkValues(attr.Name, attributeValues(attr, allValues), bitsize); err != nil {
+			return err
+		}
+	}
+	return nil
 }
 
 func (g *Generator) Generate(dict *dictionary.Dictionary) ([]byte, error) {
@@ -60,6 +145,9 @@ func (g *Generator) Generate(dict *dictionary.Dictionary) ([]byte, error) {
 		if attr.FlagEncrypt.Valid && attr.FlagEncrypt.Int != dictionary.EncryptUserPassword && attr.FlagEncrypt.Int != dictionary.EncryptTunnelPassword {
 			invalid = true
 		}
+		if !encryptSupported(attr) {
+			invalid = true
+		}
 		if attr.FlagEncrypt.Valid && attr.FlagEncrypt.Int == dictionary.EncryptTunnelPassword {
 			baseImports["crypto/rand"] = struct{}{}
 		}
@@ -89,7 +177,10 @@ func (g *Generator) Generate(dict *dictionary.Dictionary) ([]byte, error) {
 			invalid = true
 		}
 
-		ident := identifier(attr.Name)
+		ident, err := attributeIdentifier(attr)
+		if err != nil {
+			return nil, err
+		}
 		if existingAttr, ok := attrIdents[ident]; ok {
 			return nil, fmt.Errorf("dictionarygen: conflicting identifier between %s (%s) and %s (%s)", existingAttr.Name, existingAttr.OID, attr.Name, attr.OID)
 		}
@@ -145,12 +236,30 @@ func (g *Generator) Generate(dict *dictionary.Dictionary) ([]byte, error) {
 		ea.Values = append(ea.Values, value)
 	}
 	dictionary.SortValues(values)
+	if err := checkAttributeValues(attrs, values); err != nil {
+		return nil, err
+	}
+	for _, exAttr := range externalAttributes {
+		if err := checkValues(exAttr.Attribute, exAttr.Values, 0); err != nil {
+			return nil, err
+		}
+	}
+
+	vendorIdents := map[string]*dictionary.Vendor{}
 
 	vendors := make([]*dictionary.Vendor, 0, len(dict.Vendors))
 	for _, vendor := range dict.Vendors {
 		if vendor.GetLengthOctets() != 1 || vendor.GetTypeOctets() != 1 {
 			return nil, errors.New("dictionarygen: cannot generate code for " + vendor.Name)
 		}
+		if vendor.Number < 0 || int64(vendor.Number) > math.MaxUint32 {
+			return nil, errors.New("dictionarygen: cannot generate code for " + vendor.Name + ": vendor number out of range")
+		}
+		vendorIdent := identifier(vendor.Name)
+		if existingVendor, ok := vendorIdents[vendorIdent]; ok {
+			return nil, fmt.Errorf("dictionarygen: conflicting identifier between vendors %s (%d) and %s (%d)", existingVendor.Name, existingVendor.Number, vendor.Name, vendor.Number)
+		}
+		vendorIdents[vendorIdent] = vendor
 
 		for _, attr := range vendor.Attributes {
 			if _, ignored := ignoredAttributes[attr.Name]; ignored {
@@ -158,7 +267,7 @@ func (g *Generator) Generate(dict *dictionary.Dictionary) ([]byte, error) {
 			}
 
 			invalid := false
-			if len(attr.OID) != 1 {
+			if len(attr.OID) != 1 || attr.OID[0] < 0 || attr.OID[0] > math.MaxUint8 {
 				invalid = true
 			}
 			if attr.Size.Valid {
@@ -169,6 +278,9 @@ func (g *Generator) Generate(dict *dictionary.Dictionary) ([]byte, error) {
 				}
 			}
 			if attr.FlagEncrypt.Valid && attr.FlagEncrypt.Int != dictionary.EncryptUserPassword && attr.FlagEncrypt.Int != dictionary.EncryptTunnelPassword {
+				invalid = true
+			}
+			if !encryptSupported(attr) {
 				invalid = true
 			}
 			if attr.FlagEncrypt.Valid && attr.FlagEncrypt.Int == dictionary.EncryptTunnelPassword {
@@ -199,7 +311,10 @@ func (g *Generator) Generate(dict *dictionary.Dictionary) ([]byte, error) {
 				invalid = true
 			}
 
-			ident := identifier(attr.Name)
+			ident, err := attributeIdentifier(attr)
+			if err != nil {
+				return nil, err
+			}
 			if existingAttr, ok := attrIdents[ident]; ok {
 				return nil, fmt.Errorf("dictionarygen: conflicting identifier between %s (%s) and %s (%s)", existingAttr.Name, existingAttr.OID, attr.Name, attr.OID)
 			}
@@ -217,6 +332,9 @@ func (g *Generator) Generate(dict *dictionary.Dictionary) ([]byte, error) {
 		vendorValues := make([]*dictionary.Value, len(vendor.Values))
 		copy(vendorValues, vendor.Values)
 		dictionary.SortValues(vendorValues)
+		if err := checkAttributeValues(vendorAttributes, vendorValues); err != nil {
+			return nil, err
+		}
 
 		vendors = append(vendors, &dictionary.Vendor{
 			Name:   vendor.Name,
